@@ -217,3 +217,20 @@ CHECKS["C13"] = {
     "technique": "contract-based deductive verification: symbolic execution of the gradient wrappers with uninterpreted AD operators, forwarding obligations; finite-difference native replay",
 }
 NOT_APPLICABLE.pop("C13", None)
+
+CHECKS["C18"] = {
+    "category": "proof",
+    "text": ("Skeleton-bounded, value-unbounded: for every workspace skeleton (all seven modifier types, custom normfactor init / bounds, lumi != 1 with its own "
+             "uncertainty, fixed parameters, several measurements, a zero-yield bin, integer-typed yields) the real writexml.writexml and then the real "
+             "readxml.parse (with build_* / process_* / import_root_histogram / dedupe_parameters / compat.interpret_rootname inlined) are executed "
+             "symbolically with every number an independent symbol, against stated contracts of ElementTree / uproot / the file system / numpy. Proved "
+             "for all numbers: same channels, samples, nominal yields, observations, POI and constant flags; normsys / histosys / shapesys / staterror "
+             "data survive the absolute<->relative conversion; names survive except staterror_<channel>; normfactor init and bounds; lumi central value "
+             "and absolute uncertainty; no exception. Histories run through the real module-level state: export A, import, export B into the same "
+             "directory, import gives B; exporting elsewhere leaves the first import unchanged. Likelihood equality is derived from these clauses via "
+             "C01 / C02 and compared natively in the replay only."),
+    "note": ("I/O libraries are ASSUMED contracts (pyvc/iomodel.py): XML text serialisation, ROOT file format, float(str(x)) == x, stat() distinguishing "
+             "rewritten files; schema validation of the parsed workspace assumed to accept; DTD conformance of the written XML is not checked"),
+    "technique": "contract-based deductive verification: symbolic execution of the real writer and reader against library contracts, z3-discharged round-trip postconditions per skeleton; native replay with real uproot files",
+}
+NOT_APPLICABLE.pop("C18", None)
